@@ -32,6 +32,7 @@ IGN = SHARD.get("ignore_exc", False)
 KIND = SHARD.get("kind", "refused")
 FIRST = SHARD.get("first")          # first event fixed by the shard (optional)
 DTMAX = SHARD.get("dtmax", 3)
+DTMIN = SHARD.get("dtmin", 2)
 DMAX = SHARD.get("dmax", 2 * DTMAX + 1)
 ALPHA = SHARD.get("alphabet")       # events allowed after the first one (None = all)
 
@@ -140,7 +141,7 @@ def h_failover(e1: int, e2: int, e3: int, e4: int, e5: int, e6: int,
             NS+2+2i server i stops failing.  d_j = clock advance before event j.
     pre: all([0 <= e and e <= 3 * NS for e in (e1, e2, e3, e4, e5, e6)[:DEPTH]])
     pre: all([0 <= d and d <= DMAX for d in (d1, d2, d3, d4, d5, d6)[:DEPTH]])
-    pre: 1 <= rt and rt < dt and dt <= DTMAX
+    pre: 1 <= rt and rt < dt and DTMIN <= dt and dt <= DTMAX
     pre: 1 <= gap and gap <= DTMAX
     post: _ != 0
     """
@@ -287,6 +288,18 @@ def shards(tier):
     for ra in ((0, 1) if thorough else (1,)):
         out.append(dict(fn="h_failover", timeout=T, weight=3, shard=dict(ns=2, ra=ra, ignore_exc=False, kind="refused",
                                                                          depth=5, first=5, dtmax=2, dmax=5 if thorough else 3, alphabet=[1, 2, 6])))
+    # a long dead_timeout against a short retry_timeout: the retry budget (retry_attempts+2 contacts per dead_timeout
+    # window) only binds when dead_timeout spans several retries
+    for ra in (1, 2):
+        out.append(dict(fn="h_failover", timeout=T, weight=3, shard=dict(ns=2, ra=ra, ignore_exc=False, kind="refused",
+                                                                         depth=6 if ra == 2 else 5, first=3, dtmin=8, dtmax=9,
+                                                                         dmax=2, alphabet=[0])))
+    # socket.timeout (an OSError that is not a ConnectionError) with exceptions ignored
+    for first in (3, 2):
+        out.append(dict(fn="h_failover", timeout=T, shard=dict(ns=2, ra=1, ignore_exc=True, kind="timeout", depth=3,
+                                                               first=first, dtmax=3)))
+    out.append(dict(fn="h_failover", timeout=T, shard=dict(ns=2, ra=1, ignore_exc=True, kind="timeout", depth=4, first=3,
+                                                           dtmax=3, dmax=3, alphabet=[0, 2])))
     if thorough:
         for ra in (1, 2):
             for first in (0, 1, 2, 3, 4, 6, 8):
